@@ -11,6 +11,8 @@ import time
 import z3
 
 import mir2smt as M
+import c04_native as N
+from native import NativeRun
 from common import (BROKEN, HELD, INCONCLUSIVE, VIOLATED, Obligation, Report, Scratch, extract_fn, log, sh, VERIF)
 
 SCALAR = ["Int", "Nat", "Float", "Bool"]
@@ -433,7 +435,7 @@ def run(tier, seed, only=None):
                  "Symbolic execution of the rustc MIR (regenerated from /repo on this run) of the constant-evaluation "
                  "arithmetic kernels into SMT (bit-vectors + IEEE-754 FP); operand variants and payloads (every i32, u64, "
                  "f64 bit pattern, bool) are solver variables; z3 decides, per (operator, operand-variant pair), that no panic "
-                 "is reachable and that every returned value equals Python's result; thorough tier re-decides every query with cvc5.")
+                 "is reachable and that every returned value equals Python's result; thorough tier re-decides every query with cvc5.", partial=bool(only))
     rep.trusted += ["rustc nightly -Zunpretty=mir as the semantics of the source", "engines/mir2smt.py (MIR -> SMT encoder, std models listed per obligation)",
                     "z3 4.x / 5.x (python3-vt), cvc5 1.0 (thorough)", "the Python reference semantics written in props/c04.py"]
     s = Scratch("c04")
@@ -461,6 +463,7 @@ def run(tier, seed, only=None):
         for fn in ("eval_bin", "eval_unary_val"):
             rep.add_function("Context::" + fn, "crates/erg_compiler/context/eval.rs", extract_fn(esrc, fn))
         q = Q(tier)
+        ENC = {}       # role -> (arity, symbolic outcomes, operand enums, allowed variants): reused by the translation validation
 
         def find(short, must):
             c = [f for f in fns.values() if f.short == short and must in f.name]
@@ -486,6 +489,8 @@ def run(tier, seed, only=None):
             t1 = time.time()
             outs = I.run(fn, list(nargs_prefix) + [a, b], assm)
             interp_s = time.time() - t1
+            if not extra_assume:
+                ENC[role] = ("bin", outs, a, b, list(allowed))
             for lv, rv in itertools.product(allowed, allowed):
                 pair = [a.discr == idx(lv), b.discr == idx(rv)]
                 shape = "(%s,%s)" % (lv, rv)
@@ -594,6 +599,19 @@ def run(tier, seed, only=None):
                         check_values(small, "@nat<2^31", reference(op_for_ref or opname, Den(lv, a, True), Den(rv, b, True)))
                     else:
                         check_values(small, "@nat<2^31")
+                if bad and opname in ("try_floordiv", "try_mod") and lv != "Float" and rv != "Float":
+                    # floor vs truncation differs only when an operand is negative: decide the non-negative region separately,
+                    # so that a known finding on the full domain does not hide a change to the arm itself
+                    nn = list(small)
+                    if lv == "Int":
+                        nn.append(a.payload["Int"][0].t >= 0)
+                    if rv == "Int":
+                        nn.append(b.payload["Int"][0].t >= 0)
+                    Ln, Rn = Den(lv, a, True), Den(rv, b, True)
+                    # for 0 <= x, y < 2^31 Python's floor division / modulo coincide with 32-bit truncating division / remainder
+                    refnn = ("int", (Ln.t / Rn.t) if opname == "try_floordiv" else z3.SRem(Ln.t, Rn.t), Rn.t == 0,
+                             "operands >= 0 and < 2^31: floor == truncation")
+                    check_values(nn, "@nonneg<2^31", refnn)
             return I
         def unwrap_result(val):
             """Option<ValueObj> or Result<ValueObj,_> -> (inner ValueObj, condition that it is Some/Ok)"""
@@ -748,6 +766,7 @@ def run(tier, seed, only=None):
             I = mkI()
             a = sym_valueobj("v", allowed)
             outs = I.run(fn, list(prefix) + [a], [z3.Or([a.discr == idx(n) for n in allowed])])
+            ENC[role] = ("un", outs, a, None, list(allowed))
             for var in allowed:
                 pair = [a.discr == idx(var)]
                 shape = "(%s)" % var
@@ -757,34 +776,40 @@ def run(tier, seed, only=None):
                 ref = unary_ref(opk, Den(var, a))
                 if ref is None:
                     continue
-                qn, qs, bad, nsome = 0, 0.0, None, 0
-                for o in outs:
-                    if o.kind != "return":
-                        continue
-                    if isinstance(o.value, M.Enum) and ("Ok" in o.value.payload or "Some" in o.value.payload):
-                        okv, some = unwrap_result(o.value)
+                def unary_values(extra, tag):
+                    qn, qs, bad, nsome = 0, 0.0, None, 0
+                    for o in outs:
+                        if o.kind != "return":
+                            continue
+                        if isinstance(o.value, M.Enum) and ("Ok" in o.value.payload or "Some" in o.value.payload):
+                            okv, some = unwrap_result(o.value)
+                        else:
+                            okv, some = o.value, z3.BoolVal(True)
+                        if okv is None:
+                            continue
+                        r0, _, d0 = q.check(list(o.pc) + pair + [some] + extra)
+                        qn += 1
+                        qs += d0
+                        if r0 != "sat":
+                            continue
+                        nsome += 1
+                        r2, m2, d2 = q.check(list(o.pc) + pair + [some, z3.Not(agrees(okv, ref))] + extra)
+                        qn += 1
+                        qs += d2
+                        if r2 == "sat" and bad is None:
+                            bad = m2
+                    if bad is not None:
+                        mv = "%s %s" % (opk, model_value(bad, a, var))
+                        rep.add(Obligation(base, key="%s/%s/value%s" % (role, shape, tag), verdict=VIOLATED, model=mv, queries=qn, solver_s=round(qs, 3),
+                                           reason="returned value differs from Python's, e.g. " + mv))
                     else:
-                        okv, some = o.value, z3.BoolVal(True)
-                    if okv is None:
-                        continue
-                    r0, _, d0 = q.check(list(o.pc) + pair + [some])
-                    qn += 1
-                    qs += d0
-                    if r0 != "sat":
-                        continue
-                    nsome += 1
-                    r2, m2, d2 = q.check(list(o.pc) + pair + [some, z3.Not(agrees(okv, ref))])
-                    qn += 1
-                    qs += d2
-                    if r2 == "sat" and bad is None:
-                        bad = m2
-                if bad is not None:
-                    mv = "%s %s" % (opk, model_value(bad, a, var))
-                    rep.add(Obligation(base, key="%s/%s/value" % (role, shape), verdict=VIOLATED, model=mv, queries=qn, solver_s=round(qs, 3),
-                                       reason="returned value differs from Python's, e.g. " + mv))
-                else:
-                    rep.add(Obligation(base, key="%s/%s/value" % (role, shape), verdict=HELD, queries=qn, solver_s=round(qs, 3), nontrivial=bool(nsome),
-                                       reason="result equals Python's unary %s" % opk if nsome else "no value returned for this variant"))
+                        rep.add(Obligation(base, key="%s/%s/value%s" % (role, shape, tag), verdict=HELD, queries=qn, solver_s=round(qs, 3), nontrivial=bool(nsome),
+                                           reason=("result equals Python's unary %s%s" % (opk, " on the restricted domain " + tag if tag else "")) if nsome else "no value returned for this variant"))
+                    return bad is not None
+
+                if unary_values([], "") and var == "Nat":
+                    # the full-domain finding (n as i32) would hide any other change to this arm: decide n < 2^31 separately
+                    unary_values([z3.ULT(a.payload["Nat"][0].t, z3.BitVecVal(1 << 31, 64))], "@nat<2^31")
 
         if not only or "unary" in only or "neg" in only:
             c = [f for f in find("neg", "ty::value::") if len(f.params) == 1 and f.params[0][1].endswith("ValueObj")]
@@ -896,6 +921,110 @@ def run(tier, seed, only=None):
                 if len(cb) == 1 and opk in ("Add", "Sub", "Mul", "Div", "Lt", "Gt", "Le", "Ge", "Eq", "Ne"):
                     differential("try_binary[%s]" % opk, cb[0], lambda a, b: [a, b, opv()], tryname)
             log("  dispatch       done: %d obligations so far, %d queries, %.1fs solver" % (len(rep.obls), q.n, q.secs))
+
+        # ---- native phase: replay unlisted counterexamples, validate the translation on concrete vectors ----
+        def native_phase():
+            import zlib
+            nr = NativeRun(s, "erg_compiler", "crates/erg_compiler/context/eval.rs", uses=N.USES, helpers=N.HELPERS)
+            replay_known = (tier == "thorough") or bool(os.environ.get("VERIF_REPLAY_KNOWN"))
+            todo = []
+            for i, o in enumerate(rep.obls):
+                if o.get("verdict") != VIOLATED:
+                    continue
+                if rep.known.lookup("C04", o["key"]) and not replay_known:
+                    continue
+                parts = o["key"].split("/", 2)
+                rc = None
+                try:
+                    rc = N.rust_case(parts[0], o.get("model") or "", EVAL_OP)
+                except ValueError:
+                    rc = None
+                if rc is None:
+                    o["replay_note"] = "no native replay for this model text; reported from the solver model"
+                    continue
+                cid = "r%d" % i
+                nr.add(cid, rc[0])
+                todo.append((cid, o, parts[2] if len(parts) > 2 else parts[-1], rc))
+            per = 3 if tier == "quick" else 12
+            vecs = []
+            for role, (ar, outs, a, b, allowed) in ENC.items():
+                pairs = list(itertools.product(allowed, allowed)) if ar == "bin" else [(v, None) for v in allowed]
+                vs = N.vectors(pairs, per, seed * 7919 + zlib.crc32(role.encode()))
+                for j, (lv, x, rv, y) in enumerate(vs):
+                    if ar == "bin":
+                        model = "%s %s %s" % (N.operand_str(lv, x), PYOP.get(role, "?"), N.operand_str(rv, y))
+                    else:
+                        model = "%s %s" % ("neg" if role == "ValueObj::neg" else role[role.index("[") + 1:-1], N.operand_str(lv, x))
+                    try:
+                        rc = N.rust_case(role, model, EVAL_OP)
+                    except ValueError:
+                        rc = None
+                    if rc is None:
+                        continue
+                    cid = "v%d_%d" % (len(vecs), j)
+                    nr.add(cid, rc[0])
+                    vecs.append((cid, role, lv, x, rv, y, model))
+            if not nr.cases:
+                return
+            t1 = time.time()
+            res, ndt = nr.run()
+            log("  native run (cargo test, dev profile): %d cases, %.0fs" % (len(nr.cases), ndt))
+            rep.extra["native_run_s"] = round(ndt, 1)
+            if res is None:
+                rep.add(Obligation(key="native-run", verdict=BROKEN, engine="cargo test (dev)",
+                                   reason="the native replay/validation module did not build or run: " + nr.logs.get("dev", "")[-600:]))
+                return
+            for cid, o, kind, rc in todo:
+                pyres = N.py_result(rc[1]) if rc[1] else None
+                ok, text = N.judge("dispatch" if kind == "dispatch" else kind, res.get(cid), pyres)
+                o["native_replay"] = {"rust": rc[0], "result": text, "reproduced": ok}
+                if ok is False:
+                    o["verdict"] = BROKEN
+                    o["reason"] = "counterexample did not reproduce natively (%s): %s" % (text, o.get("reason", ""))
+                elif ok:
+                    rep.replayed += 1
+                    o["replay"] = rep.write_replay(o)
+            # translation validation
+            subset = {}
+            by_role = {}
+            for cid, role, lv, x, rv, y, model in vecs:
+                ar, outs, a, b, allowed = ENC[role]
+                kk = (role, lv, rv)
+                if kk not in subset:
+                    pair = [a.discr == idx(lv)] + ([b.discr == idx(rv)] if b is not None else [])
+                    subset[kk] = [o for o in outs if (not o.pc) or q._solve(list(o.pc) + pair, 20000)[0] != "unsat"]
+                cs = N.assign(a, lv, x, VIDX) + (N.assign(b, rv, y, VIDX) if b is not None else [])
+                enc = N.encoder_eval(subset[kk], cs, variants, unwrap=(role != "ValueObj::neg"))
+                nat = N.norm_native(res.get(cid, "?"))
+                st = by_role.setdefault(role, {"n": 0, "skipped": 0, "bad": []})
+                if enc in ("UNSUPPORTED", "UNKNOWN"):
+                    st["skipped"] += 1
+                elif not N.same_outcome(enc, nat):
+                    st["bad"].append("%s: symbolic %s, native %s" % (model, enc, nat))
+                else:
+                    st["n"] += 1
+                    if enc.endswith("(*)"):
+                        st["variant_only"] = st.get("variant_only", 0) + 1
+                    st.setdefault("sample", "%s => %s" % (model, nat))
+            tot = 0
+            for role, st in by_role.items():
+                tot += st["n"]
+                base = dict(engine="mir2smt outcome under a concrete assignment vs cargo test (dev)", functions=[role],
+                            shape="%d concrete operand vectors (seeded)" % (st["n"] + st["skipped"] + len(st["bad"])),
+                            symbolic=[], bounds={}, solver="z3", nontrivial=False)
+                if st["bad"]:
+                    rep.add(Obligation(base, key="translation-validation/" + role, verdict=BROKEN,
+                                       reason="the encoding disagrees with the real code: " + "; ".join(st["bad"][:4])))
+                else:
+                    rep.add(Obligation(base, key="translation-validation/" + role, verdict=HELD,
+                                       reason="%d vectors: the symbolic outcome (value / None / panic) equals the native one (%d skipped: unsupported path; %d compared by variant only: uninterpreted float op); e.g. %s"
+                                              % (st["n"], st["skipped"], st.get("variant_only", 0), st.get("sample", "-"))))
+            rep.replayed += tot
+            rep.extra["translation_validation_vectors"] = tot
+            log("  translation validation: %d vectors agree, %.0fs" % (tot, time.time() - t1 - ndt))
+
+        if not only or "native" in only or os.environ.get("VERIF_NATIVE"):
+            native_phase()
         rep.extra["mir_dump_s"] = round(dt, 1)
         rep.extra["queries_total"] = q.n
         rep.extra["cvc5_cross_checked"] = q.cross
